@@ -723,6 +723,7 @@ package vanguard
 //@   ensures validTR(r) && r.rw == old(r.rw) && r.consumedFirst
 //@   ensures[C01] err == nil ==> r.msg.stage == 3 && r.buffer == r.msg.buf && r.buffer != nil
 //@   ensures[C10,C02] err == nil && r.rw.op.serverEnveloper != nil ==> r.envRemain == 5 && be32(r.env) == blen(r.buffer) && blen(r.buffer) <= limitOf(r.rw.op)
+//@   ensures[C10] err == nil ==> blen(r.buffer) <= limitOf(r.rw.op)
 //@   ensures[C02] err == nil && r.rw.op.serverEnveloper != nil ==> r.env[0] == ite(r.msg.wasCompressed && r.rw.op.server.reqCompression != nil, 1, 0)
 //@   ensures[C02] err == nil && r.rw.op.serverEnveloper == nil ==> r.envRemain == 0
 //@   ensures[C14] ownMsg(r.msg)
